@@ -19,7 +19,7 @@ hand-written expression parser for the subset
     static_cast<T>(e), T(e) for the integral typedefs in scope, the variables in scope
 and printed as Lean with the C++ semantics explicit:
     find_if:  diff_t = decltype(std::distance(..)) is SIGNED  ->  Int,  `/` -> Int.tdiv, `%` -> Int.tmod
-              iterators are offsets from begin_it: begin_it -> 0, end_it -> distance, std::advance(x, n) -> x + n
+              iterators are offsets from begin_it: begin_it -> 0, end_it -> distance, dist -> distance
     bulk:     Integral (size_t in every instantiation made by the library's tests; diff_t >= 0 in find_if)
               -> Nat, no wrap-around assumed (count + chunk size representable); `-` is outside the subset
 Anything else is a TranslateError = broken tie (reported by the check, never skipped).
@@ -326,9 +326,9 @@ return unifex::let_value(
             auto bulk_phase = unifex::bulk_join(unifex::bulk_transform(
               unifex::bulk_schedule(std::move(sched), «bulk_count»),
               [&](diff_t index) {
+                const diff_t dist = std::distance(begin_it, end_it);
                 auto chunk_begin_it = «chunk_begin_it»;
-                auto chunk_end_it = «chunk_end_init»;
-                if («chunk_end_cond») { std::advance(chunk_end_it, «chunk_end_adv»); } else { chunk_end_it = «chunk_end_else»; }
+                auto chunk_end_it = «chunk_end_it»;
                 for (auto it = «scan_init»; «scan_continue»; «scan_step») {
                   if (std::invoke(func, *it, values...)) {
                     state.perChunkState[index] = it;
@@ -355,9 +355,9 @@ return unifex::let_value(
 FINDIF_SEQ = """
 return unifex::then(
   unifex::just(std::forward<Values>(values)...),
-  [this, begin_it, end_it](auto... values) {
+  [func = std::move(func_), begin_it, end_it](auto... values) mutable {
     for (auto it = «seq_init»; «seq_continue»; «seq_step») {
-      if (std::invoke((Func&&)func_, *it, values...)) {
+      if (std::invoke(func, *it, values...)) {
         return std::tuple<Iterator, Values...>(it, std::move(values)...);
       }
     }
@@ -385,7 +385,8 @@ def gen_findif(repo):
     casts = {"diff_t", "std::ptrdiff_t", "ptrdiff_t"}
     g = Gen("Int", "find_if.hpp")
     ex = lambda name, hh=h: parse_expr(hh[name], casts, f"find_if.hpp «{name}»")
-    it_scope = {"begin_it": ("expr", ("int", 0)), "end_it": ("expr", ("var", "distance"))}
+    # `const diff_t dist = std::distance(begin_it, end_it);` inside the chunk lambda (pinned by the skeleton) is the same distance
+    it_scope = {"begin_it": ("expr", ("int", 0)), "end_it": ("expr", ("var", "distance")), "dist": ("expr", ("var", "distance"))}
     D, DI, DII = ["distance"], ["distance", "index"], ["distance", "index", "it"]
     g.define("max_num_chunks", [], ex("max_num_chunks"), comment="constexpr diff_t max_num_chunks = …;")
     g.define("min_chunk_size", [], ex("min_chunk_size"), comment="constexpr diff_t min_chunk_size = …;")
@@ -395,10 +396,7 @@ def gen_findif(repo):
     g.define("per_chunk_init", D, ex("per_chunk_init"), extra_scope=it_scope, comment="std::vector<Iterator>(…, «per_chunk_init»)  — initial value of every perChunkState entry (as an offset)")
     g.define("bulk_count", D, ex("bulk_count"), comment="unifex::bulk_schedule(std::move(sched), «bulk_count»)")
     g.define("chunk_begin_it", DI, ex("chunk_begin_it"), extra_scope=it_scope, comment="auto chunk_begin_it = …;   (inside the bulk_transform lambda, `index` = the bulk index)")
-    # chunk_end_it: `auto chunk_end_it = e0; if (c) { std::advance(chunk_end_it, a); } else { chunk_end_it = e1; }`
-    e0, c, a, e1 = ex("chunk_end_init"), ex("chunk_end_cond"), ex("chunk_end_adv"), ex("chunk_end_else")
-    g.define("chunk_end_it", DI, ("ite", c, ("bin", "+", e0, a), e1), extra_scope={**it_scope, "chunk_end_it": ("expr", e0)},
-             comment="auto chunk_end_it = …; if (…) { std::advance(chunk_end_it, …); } else { chunk_end_it = …; }   — value at the scan loop")
+    g.define("chunk_end_it", DI, ex("chunk_end_it"), extra_scope=it_scope, comment="auto chunk_end_it = …;")
     g.define("scan_init", DI, ex("scan_init"), extra_scope=it_scope, comment="for (auto it = «scan_init»; …; …)")
     g.define("scan_continue", DII, ex("scan_continue"), kind=BOOL, extra_scope=it_scope, comment="for (…; «scan_continue»; …)")
     g.define("scan_step", DII, parse_step(h["scan_step"], "it", casts, "find_if.hpp «scan_step»"), extra_scope=it_scope, comment="for (…; …; «scan_step»)  — new value of it")
@@ -409,7 +407,7 @@ def gen_findif(repo):
     g.define("seq_step", DIt, parse_step(hs["seq_step"], "it", casts, "find_if.hpp «seq_step»"), extra_scope=it_scope, comment="sequential overload: for (…; …; «seq_step»)")
     notes = ("  signedness: diff_t = decltype(std::distance(begin_it, end_it)) is the iterator difference type, SIGNED:\n"
              "    modelled as Int, C++ `/` ↦ Int.tdiv, `%` ↦ Int.tmod (truncation toward zero).\n"
-             "  iterators are offsets from begin_it: begin_it ↦ 0, end_it ↦ distance, std::advance(x, n) ↦ x + n, ++it ↦ it + 1.\n"
+             "  iterators are offsets from begin_it: begin_it ↦ 0, end_it ↦ distance, dist (= std::distance(begin_it, end_it) in the chunk lambda) ↦ distance, ++it ↦ it + 1.\n"
              "  Everything outside the «holes» of the skeleton in the translator is literally the skeleton (checked on every run).")
     text = HEADER.format(src="include/unifex/find_if.hpp (find_if_helper::operator(), parallel_policy and sequenced_policy overloads)", notes=notes, ns="FindIfChunks")
     text += "\n".join(g.lines) + "\n\nend Unifex.Generated.FindIfChunks\n"
